@@ -14,7 +14,8 @@ TECHNIQUE = ('explicit-state BFS over sequences of read-only operations on real 
              'object graph of the result (attribute dictionaries, mapping key sets incl. default dictionaries, arrays as bytes; private '
              'cache attributes excluded) together with what its accessors answer (verdict, oracles, counts); any state other than '
              'the initial one is a violation; plus every ordered pair of operations and repeated evaluation')
-RULE = ('for each result kind (equal, approx-equal, Student, Bonferroni, Holm-Bonferroni over Student, metadata, statistics of tasks / '
+RULE = ('[also: a failed result holding an exception object; 2-d datasets with string bins; evaluate() leaves the test equal to a never-evaluated twin] ' +
+        'for each result kind (equal, approx-equal, Student, Bonferroni, Holm-Bonferroni over Student, metadata, statistics of tasks / '
         'tests / tests by labels, failed evaluation) in a passing and a failing instance, on scalar / 1-d / 2-d datasets (special values inf / NaN / zero errors; arrays also stored '
         'big-endian, Fortran-ordered, strided and as float32): BFS from the '
         'freshly evaluated result over the operations {bool, oracles, counts (nb_rejected, per_key, nb_missing_labels, ...), '
